@@ -840,6 +840,90 @@ fn closed_case(family: &'static str, fam: TFam, index: u64, r: &mut Rng, max_t: 
     c.sample_n(5, || json!({"family": family, "index": index, "diagram": desc, "tcount": tc, "runs": runs}));
 }
 
+/// Schedule stress: one diagram with a T-count above the usual range, one configuration, one
+/// sequential run judged against E(d), then `reps` parallel runs spread over the pool sizes,
+/// each judged against E(d) and against the sequential result. The step log is off in this
+/// family (the caller switches it), so the runs are as fast — and the windows between
+/// sibling tasks as narrow — as in production.
+fn stress_case(family: &'static str, index: u64, r: &mut Rng, min_t: usize, max_t: usize, max_sp: usize, reps: usize) {
+    let c = ctx();
+    let mut d = None;
+    for _ in 0..40 {
+        let fam = *r.pick(&[TFam::Random, TFam::Cats, TFam::Gadgets, TFam::TPair, TFam::TOnly, TFam::Multi]);
+        let cand = gen_closed(r, fam, max_t, max_sp);
+        if tdiag::tcount(&cand) >= min_t {
+            d = Some(cand);
+            break;
+        }
+    }
+    let Some(d) = d else {
+        c.skipped();
+        return;
+    };
+    let desc = d.to_json();
+    let tc = tdiag::tcount(&d);
+    let (g, _) = d.build::<quizx::vec_graph::Graph>(None);
+    let expected = match crate::snap::eval_graph(&g) {
+        Ok(t) if t.len() == 1 => t,
+        _ => {
+            c.skipped();
+            return;
+        }
+    };
+    // polynomial-ish drivers mostly; the exponential ones only with a simplifier and a modest T-count
+    let drv = match r.below(10) {
+        0..=2 => Drv::BssT { random: false },
+        3 => Drv::BssT { random: true },
+        4..=5 => Drv::Cats { random: false },
+        6 => Drv::Cats { random: true },
+        7 => Drv::DynT,
+        8 if tc <= 12 => Drv::Cut,
+        _ => Drv::BssT { random: false },
+    };
+    let simp = if matches!(drv, Drv::Cut | Drv::DynT) { *r.pick(&[SimpFunc::CliffordSimp, SimpFunc::FullSimp]) } else { *r.pick(&[SimpFunc::NoSimp, SimpFunc::CliffordSimp, SimpFunc::FullSimp]) };
+    let cfg = Cfg { drv, simp, split: r.chance(0.5) };
+    let lease = Lease::take();
+    let pools = lease.set();
+    let res = run_once(&g, &cfg, Mode::Seq, pools);
+    let Some(seq) = judge_run(family, index, &cfg, Mode::Seq, res, &expected, &desc, &[]) else {
+        return;
+    };
+    let mut runs = 1u64;
+    const STRESS_KS: [usize; 5] = [2, 3, 4, 8, 16];
+    for rep in 0..reps {
+        if c.out_of_time() {
+            break;
+        }
+        let k = STRESS_KS[rep % STRESS_KS.len()];
+        let mode = Mode::Par(k);
+        let res = run_once(&g, &cfg, mode, pools);
+        runs += 1;
+        c.count(&format!("stress_par_runs:k={k:02}"), 1);
+        if let Some(p) = judge_run(family, index, &cfg, mode, res, &expected, &desc, &[]) {
+            if !scalars_equal(&p, &seq) {
+                c.violation(
+                    &format!("decompose_parallel|differs-from-sequential|{}", cfg.label()),
+                    family,
+                    index,
+                    violation_detail(
+                        "parallel result differs from sequential result (schedule stress)",
+                        &cfg,
+                        mode,
+                        &desc,
+                        json!({"sequential": scalar_json(&seq), "parallel": scalar_json(&p), "expected": tens_json(&expected), "repetition": rep}),
+                    ),
+                );
+                break;
+            }
+        }
+    }
+    c.case(family, Some(d.hash()));
+    c.evals(runs.saturating_sub(1));
+    c.count(&format!("tcount[parallel-stress]:{tc:02}"), 1);
+    c.count(&format!("stress_config:{}", cfg.label()), 1);
+    c.maximum("max_tcount_stress", tc as u64);
+}
+
 /// Bring the number of T-like gates of a circuit to `target`: surplus T-like gates become
 /// their Clifford neighbours, missing ones are inserted at random places.
 fn shape_tcount(r: &mut Rng, circ: &mut Circ, target: usize) {
@@ -1606,6 +1690,12 @@ pub fn run() {
     par_cases("saved-terms", ns, move |r, i| saved_case("saved-terms", i, r, max_t.min(9), max_sp));
     process_events(collect_events(None), "saved-terms(leftover)", 0);
     quizx::verif::set_step_log(false);
+
+    // schedule stress on T-counts above the end-to-end families' range (step log off)
+    quizx::verif::drain_step_log();
+    let (nps, smin, smax, sreps) = t.pick((2000usize, 9usize, 13usize, 60usize), (40_000usize, 9usize, 18usize, 120usize));
+    timed(&mut fam_wall, "parallel-stress");
+    par_cases("parallel-stress", nps, move |r, i| stress_case("parallel-stress", i, r, smin, smax, max_sp.max(14), sreps));
 
     timed(&mut fam_wall, "end");
     let walls: serde_json::Map<String, Value> = fam_wall.windows(2).map(|w| (w[0].0.to_string(), json!(((w[1].1 - w[0].1) * 10.0).round() / 10.0))).collect();
